@@ -66,6 +66,14 @@ def extract(ctx):
     t = rw.sub(t, r'leave_task_pool\(\);', 'slot_leave_task_pool(self);', 1, 1, name='method')
     out.insert(0, t)
     common.write(ctx, 'get_task.inc', 'task* slot_get_task_impl(struct aslot* self, size_t T, execution_data_ext* ed, bool* tasks_omitted, isolation_type isolation);\n' + '\n'.join(out) + '\n')
+    # the same text with pool element accesses and task attribute reads behind accessor macros (representation of the pool by per-index arrays: job pool.get_task)
+    t = '\n'.join(out)
+    t = rw.sub(t, r'\bself->task_pool_ptr\[([^\]]*)\] = ([^;]*);', r'POOL_WR(self->task_pool_ptr, \1, \2);', 0, None, name='pool element write -> POOL_WR')
+    t = rw.sub(t, r'\bself->task_pool_ptr\[([^\]]*)\]', r'POOL_RD(self->task_pool_ptr, \1)', 1, None, name='pool element read -> POOL_RD')
+    t = rw.sub(t, r'\bresult->isolation\b', 'TASK_ISOLATION(result)', 1, 1, name='accessor macro')
+    t = rw.sub(t, r'\bresult->is_proxy\b', 'TASK_IS_PROXY(result)', 1, 1, name='accessor macro')
+    t = rw.sub(t, r'\btp->slot\b', 'TASK_SLOT(tp)', 1, 1, name='accessor macro')
+    common.write(ctx, 'get_task_lc.inc', 'task* slot_get_task_impl(struct aslot* self, size_t T, execution_data_ext* ed, bool* tasks_omitted, isolation_type isolation);\n' + t + '\n')
     # task_proxy::extract_task<from_bit>
     s = slice_block(MB, r'inline task\* extract_task \(\)')
     sliced.append('%s:%d task_proxy::extract_task<from_bit>' % (MB, s.line))
@@ -88,14 +96,100 @@ def extract(ctx):
     return sliced, fired
 
 
+LOCK_METHODS = [  # name, signature regex, C signature
+    ('acquire_task_pool', r'void acquire_task_pool\(\)', 'void slot_acquire_task_pool(struct aslot* self)'),
+    ('release_task_pool', r'void release_task_pool\(\)', 'void slot_release_task_pool(struct aslot* self)'),
+    ('lock_task_pool', r'd1::task\*\* lock_task_pool\(\)', 'task** slot_lock_task_pool(struct aslot* self)'),
+    ('unlock_task_pool', r'void unlock_task_pool\(d1::task\*\* victim_task_pool\)', 'void slot_unlock_task_pool(struct aslot* self, task** victim_task_pool)'),
+    ('leave_task_pool', r'void leave_task_pool\(\)', 'void slot_leave_task_pool(struct aslot* self)'),
+    ('publish_task_pool', r'void publish_task_pool\(\)', 'void slot_publish_task_pool(struct aslot* self)'),
+]
+MACROS = dict(common.TARGET_MACROS, __TBB_PREFETCHING=None)
+
+
+def extract_locks(ctx, sliced, fired):
+    """the six operations on the pool lock word arena_slot::task_pool"""
+    rw = Rewriter('pool_lock')
+    out = []
+    for name, sig, csig in LOCK_METHODS:
+        s = slice_block(ASH, sig)
+        sliced.append('%s:%d arena_slot::%s' % (ASH, s.line, name))
+        t = cxx2c.cpp_resolve(s.text, MACROS, name)
+        t = rw.sub(t, sig, csig, 1, 1, name='sig')
+        t = rw.sub(t, r'for\s*\(\s*atomic_backoff (\w+);;\s*\1\.pause\(\)\s*\)', 'for (;;)', 0, name='backoff-for')
+        t = rw.sub(t, r'for\s*\(\s*atomic_backoff \w+;;[^)]*\)', 'for (;;)', 0, name='backoff-for')
+        t = rw.sub(t, r'\bbackoff\.pause\(\);', 'RG_NOP();', 0, name='backoff-call->RG_NOP')
+        t = rw.sub(t, r'__TBB_ASSERT\s*\(\s*task_pool == EmptyTaskPool,', '__TBB_ASSERT( task_pool.load(std::memory_order_relaxed) == EmptyTaskPool,', 0, name='implicit atomic load in assert')
+        t = rw.sub(t, r'__TBB_ASSERT\(is_quiescent_local_task_pool_empty\(\), "[^"]*"\);', 'VERIF_ASSERT(self->head == self->tail, "Cannot leave arena when the task pool is not empty");', 0, name='debug helper inlined')
+        t = rw.sub(t, r'(?<![\w.>])is_task_pool_published\(\)', '(ATOMIC_LOAD(self->task_pool) != EmptyTaskPool)', 0, name='method is_task_pool_published() (a relaxed load of the lock word)')
+        t = rw.atomics(t, ['task_pool'], 1)
+        t = rw.sub(t, r'ATOMIC_(\w+)\(task_pool\b', r'ATOMIC_\1(self->task_pool', 1, name='field')
+        t = rw.sub(t, r'(?<![\w.>])(head|tail)\.load\([^)]*\)', r'self->\1', 0, name='plain read under lock')
+        t = rw.sub(t, r'(?<![\w.>])task_pool_ptr\b', 'self->task_pool_ptr', 0, name='field')
+        t = rw.sub(t, r'd1::task\*\*', 'task**', 0, name='ns-strip')
+        t = rw.asserts(t, 0)
+        t = rw.std(t)
+        t = rw.number_sites(t, name, by_kind=True)
+        t = tag_loops(t, name, rw)
+        out.append(t)
+    if not re.search(r'bool is_task_pool_published\(\) const \{\s*return task_pool\.load\(std::memory_order_relaxed\) != EmptyTaskPool;', load(ASH)):
+        raise ExtractionBreak('arena_slot::is_task_pool_published is no longer a plain load of task_pool compared with EmptyTaskPool')
+    for pat, what in ((r'static d1::task\*\* const EmptyTaskPool  = nullptr;', 'EmptyTaskPool'), (r'static d1::task\*\* const LockedTaskPool = reinterpret_cast<d1::task\*\*>\(~std::intptr_t\(0\)\);', 'LockedTaskPool')):
+        if not re.search(pat, load(ASH)):
+            raise ExtractionBreak('arena_slot.h: %s changed' % what)
+    common.write(ctx, 'locks.inc', '\n'.join(out) + '\n')
+    fired['pool_lock'] = rw.fired
+
+
+def extract_steal(ctx, sliced, fired):
+    rw = Rewriter('steal')
+    s = slice_block(ASC, r'd1::task\* arena_slot::steal_task\(arena& a, isolation_type isolation, std::size_t slot_index\)')
+    sliced.append('%s:%d arena_slot::steal_task' % (ASC, s.line))
+    t = cxx2c.cpp_resolve(s.text, MACROS, 'steal_task')
+    t = rw.sub(t, r'd1::task\* arena_slot::steal_task\(arena& a, isolation_type isolation, std::size_t slot_index\)',
+               'task* slot_steal_task(struct aslot* self, struct arena* a, isolation_type isolation, size_t slot_index)', 1, 1, name='sig')
+    t = rw.sub(t, r'd1::task\*\* victim_pool = lock_task_pool\(\);', 'task** victim_pool = slot_lock_task_pool(self);', 1, 1, name='method')
+    t = rw.sub(t, r'unlock_task_pool\(victim_pool\);', 'slot_unlock_task_pool(self, victim_pool);', 1, 1, name='method')
+    t = rw.sub(t, r'H = \+\+head;', 'H = ATOMIC_PREINC(self->head);', 1, 1, name='atomic ++')
+    t = rw.sub(t, r'(?<![\w.>])(tail|head)\.load\([^)]*\)', r'ATOMIC_LOAD(self->\1)', 2, name='atomic-load')
+    t = rw.sub(t, r'(?<![\w.>])head\.store\(\s*(?:/\*[^*]*\*/)?\s*([^;]*?), std::memory_order_\w+\s*\);', r'ATOMIC_STORE(self->head, \1);', 2, 2, name='atomic-store')
+    t = rw.sub(t, r'__TBB_ASSERT\( !is_poisoned\( result \), nullptr \);', 'RG_NOP();', 1, 1, name='poison check (debug only) -> RG_NOP')
+    t = rw.sub(t, r'poison_pointer\( victim_pool\[[^\]]*\] \);', 'RG_NOP();', 2, 2, name='poison_pointer (no-op in release builds) -> RG_NOP')
+    t = rw.sub(t, r'task_accessor::isolation\(\*result\)', 'TASK_ISOLATION(result)', 1, 1, name='accessor')
+    t = rw.sub(t, r'task_accessor::is_proxy_task\(\*result\)', 'TASK_IS_PROXY(result)', 1, 1, name='accessor')
+    t = rw.sub(t, r'task_proxy& tp = \*static_cast<task_proxy\*>\(result\);', 'task* tp = result;', 1, 1, name='downcast')
+    t = rw.sub(t, r'\bvictim_pool\[([^\]]*)\] = ([^;]*);', r'POOL_WR(victim_pool, \1, \2);', 0, None, name='pool element write -> POOL_WR')
+    t = rw.sub(t, r'\bvictim_pool\[([^\]]*)\]', r'POOL_RD(victim_pool, \1)', 1, 1, name='pool element read -> POOL_RD')
+    t = rw.sub(t, r'task_proxy::is_shared\(tp\.task_and_tag\)', 'STUB_proxy_is_shared(tp)', 1, 1, name='callee stub (a load of the proxy word)')
+    t = rw.sub(t, r'tp\.outbox->recipient_is_idle\(\)', 'STUB_outbox_recipient_is_idle(tp)', 1, 1, name='callee stub (a relaxed load)')
+    t = rw.sub(t, r'a\.mailbox\(slot_index\)\.recipient_is_idle\(\)', 'STUB_my_mailbox_is_idle(a, slot_index)', 1, 1, name='callee stub (a relaxed load)')
+    t = rw.sub(t, r'a\.advertise_new_work<arena::wakeup>\(\);', 'STUB_advertise_new_work();', 1, 1, name='callee stub')
+    t = rw.sub(t, r'd1::task\*', 'task*', 1, name='ns-strip')
+    t = rw.asserts(t, 3)
+    t = rw.casts(t, 0)
+    t = rw.fcasts(t, ['std::size_t', 'std::intptr_t'])
+    t = rw.std(t)
+    t = rw.number_sites(t, 'steal', by_kind=True)
+    t = tag_loops(t, 'steal', rw, expect=1)
+    common.write(ctx, 'steal.inc', t + '\n')
+    fired['steal'] = rw.fired
+
+
 def build(ctx):
     sliced, fired = extract(ctx)
+    extract_locks(ctx, sliced, fired)
+    extract_steal(ctx, sliced, fired)
     C = os.path.join(HERE, 'c01.c')
     n = 5 if ctx.tier == 'quick' else 7
     jobs = [
         Job('pool.get_task_impl', C, 'h_impl', route='LF', defines=['POOL'], target='arena_slot::get_task_impl (isolation filter)', source=ASC),
         Job('pool.get_task', C, 'h_get_task', route='BD', bound_text='owner alone (no thief), task pool of at most %d entries with arbitrary holes and isolation tags' % n, defines=['POOL', 'MAXN=%d' % n], unwind=n + 3, timeout=900,
             target='arena_slot::get_task + get_task_impl + reset_task_pool_and_leave (owner-side pop with isolation skipping)', source=ASC),
+    ] + [Job('lock.' + n, C, 'h_' + h, route='RG', defines=['PLOCK'], loops=lp, nloops=1 if lp else None, target='arena_slot::' + n, source=ASH)
+         for n, h, lp in (('acquire_task_pool', 'acquire', True), ('release_task_pool', 'release', False), ('lock_task_pool', 'lock', True),
+                          ('unlock_task_pool', 'unlock', False), ('leave_task_pool', 'leave', False), ('publish_task_pool', 'publish', False))] + [
+        Job('pool.get_task.any_size', C, 'h_get_task_lc', route='LC', loops=True, nloops=1, defines=['GTLC'], target='arena_slot::get_task + get_task_impl + reset_task_pool_and_leave (owner side, any pool size)', source=ASC, timeout=900),
+        Job('pool.steal_task', C, 'h_steal', route='LC', loops=True, nloops=1, defines=['STEAL'], target='arena_slot::steal_task (thief side, any pool size)', source=ASC, timeout=600),
         Job('proxy.extract', C, 'h_extract', route='RG', defines=['PROXY'], target='task_proxy::extract_task<pool_bit|mailbox_bit> (two-sided claim)', source=MB),
     ]
     return {
